@@ -19,7 +19,6 @@ import (
 
 const (
 	verifDir = "/verif"
-	specDir  = "/verif/spec"
 	tlaJars  = "/opt/veriftools/tla/tla2tools.jar:/opt/veriftools/tla/CommunityModules-deps.jar"
 )
 
@@ -28,6 +27,7 @@ const (
 // carries one seeded change, and outDir at a scratch directory, so that many
 // changes can be tried at once without touching /repo or /verif/evidence.
 var (
+	specDir = envOr("VERIF_SPEC", "/verif/spec")
 	repoDir = envOr("VERIF_REPO", "/repo")
 	outDir  = envOr("VERIF_OUT", verifDir)
 )
